@@ -435,6 +435,20 @@ def check(pid, tier, seed):
                 bad_axioms[t] = bad
         if bad_axioms:
             broken.append({"what": "axiom-audit", "detail": json.dumps(bad_axioms)})
+    # 3b. thorough tier: independent re-check of the compiled property modules (leanchecker replays every declaration
+    # of the module's .olean through the kernel, outside the elaborator that produced it)
+    leancheck = None
+    if lean_ok and tier == "thorough":
+        failed = []
+        t0 = time.time()
+        for mod in cfg["modules"]:
+            rc_c, out_c = sh(["lake", "env", "leanchecker", mod], cwd=LEAN, timeout=3600)
+            if rc_c != 0:
+                failed.append({"module": mod, "output": out_c[-1500:]})
+        leancheck = {"modules": list(cfg["modules"]), "failed": [f["module"] for f in failed],
+                     "wall_s": round(time.time() - t0, 1)}
+        if failed:
+            broken.append({"what": "leanchecker", "detail": json.dumps(failed)[:4000]})
     tokens = forbidden_tokens()
     if tokens:
         broken.append({"what": "forbidden-token", "detail": "\n".join(tokens[:20])})
@@ -574,12 +588,14 @@ def check(pid, tier, seed):
                                                  .split("def translated : List String := [")[-1].split("]")[0])) // 2,
             "untranslated": [l[len("gen_fns: UNTRANSLATED "):] for l in untranslated],
             "tie_theorems": len([t for t in thms if t.startswith("X86.SrcTie.") or t.startswith("X86.RefBridge.")
-                                 or t.startswith("X86.SrcModel.")]),
+                                 or t.startswith("X86.SrcModel")]),
             "third_voice_lines": sum(int((r["summary"] or {}).get("src", 0) or 0) for r in runs),
             "note": "Generated/SrcFns.lean is re-generated from /repo's source on this run; X86.SrcTie.* prove "
                     "generated = reference definition for all inputs, X86.RefBridge.* reference = Nat model; the "
                     "driver also evaluates the generated definitions on every protocol line (disagreement prefix `src`)",
         }
+    if leancheck is not None:
+        coverage["leanchecker"] = leancheck
     if ev_res is not None:
         coverage["uncovered"] = ev_res["uncovered"]
         coverage["spec_eval_counts"] = ev_res["counts"]
